@@ -191,6 +191,10 @@ func c05dChild(desc string) (out string) {
 	fam, variant := f[0], f[1]
 	n, _ := strconv.Atoi(f[2])
 	switch fam {
+	case "growth":
+		return c05eChildGrowth(variant, n)
+	case "selfref":
+		return c05eChildSelfRef(variant)
 	case "content":
 		var body []byte
 		kind, shape, _ := strings.Cut(variant, "-")
